@@ -38,7 +38,7 @@ RULE = (
     "window x skew x last_counter (None,-1..top) x every time 0..T x submitted code (code of every counter 0..top; the "
     "quick tier keeps the last_counter values within 2 and the counters within 3 of the window edges and of "
     "last_counter, plus the extremes -1, 0, top; "
-    "an unassigned code, 15 malformed codes; sub-parts: int/bytes/decorated forms, float/datetime times); a case is "
+    "an unassigned code, 19 malformed codes; sub-parts: int/bytes/decorated forms, float/datetime times); a case is "
     "non-trivial when TOTP.match really ran; distinct class = family|period|window|skew|phase of (time+skew) in the "
     "period|expected outcome|position of the deciding counter relative to window edges and last_counter|code form. "
     "E2: breadth-first search, state = (last_counter, accepted counters), every (time, code) event applied in "
@@ -467,6 +467,9 @@ def malformed_codes(digits, good):
         ("dot", "1" * (d - 1) + "."), ("short_bytes", b"2" * (d - 1)), ("long_int", 10**d),
         ("short_decorated", "1 1-1"), ("valid_plus_digit", good + "0"), ("valid_minus_digit", good[1:]),
         ("valid_twice", good + good),
+        # bytes that are not text at all: still "not a code of the right length", whatever their length
+        ("undecodable_first", b"\xff" + good[1:].encode()), ("undecodable_last", good[:-1].encode() + b"\xff"),
+        ("undecodable_only", b"\xff"), ("undecodable_extra", good.encode() + b"\xc3"),
     ]
 
 
